@@ -123,6 +123,15 @@ def fixed_cases(d):
     q = p.call(q, "where", p.bin("==", p.call(t, "field", "a"), [1, 2, 3]))
     q = p.call(q, "where", p.bin("==", p.call(t, "field", "b"), []))
     out.append({"k": "program", "prog": p.prog(dialect=d, fixed="exempt-and-arrays"), "tgt": q.i})
+    # every argument form of Array and of list constants: one list argument, nested lists, tuples, no argument, one element
+    p = P()
+    t = p.new("Table", "t1")
+    q = p.call(p.call(Q, "from_", t), "select", p.call(t, "field", "id"))
+    for col_, val_ in (("a1", p.new("Array", [1, 2, 3])), ("a2", p.new("Array", (4, 5))), ("a3", p.new("Array")), ("a4", p.new("Array", 6)),
+                       ("a5", p.new("Array", [1, 2], [3, 4])), ("a6", p.new("Array", "x", "it's")), ("a7", [[7, 8]]), ("a8", [[1], [2, 3]]), ("a9", [[]]),
+                       ("a10", ["p", "q"]), ("a11", [None, 1]), ("a12", p.new("Array", [[9]]))):
+        q = p.call(q, "where", p.bin("==", p.call(t, "field", col_), val_))
+    out.append({"k": "program", "prog": p.prog(dialect=d, fixed="array-argument-forms"), "tgt": q.i})
     # a bare Interval (a builder object, not a datum) in every position that takes a value
     iv = lambda p: p.new("Interval", hours=2, minutes=30)  # noqa: E731
     p = P()
@@ -326,25 +335,43 @@ def array_span(ti, j):
 
 
 def decode_array(toks, v, d):
+    """toks spell an array literal ([..] | ARRAY[..] | '{}'), nested arrays included; v is the recorded list."""
     if len(toks) == 1:
         return None if v == [] else "empty-array literal for a non-empty list"
-    inner = [t for t in toks if not (t.kind == "WORD" and t.value == "ARRAY")][1:-1]
+    body = list(toks)
+    if body and body[0].kind == "WORD" and body[0].value == "ARRAY":
+        body = body[1:]
+    if len(body) >= 2 and body[0].text == "(" and body[-1].text == ")" and isinstance(v, tuple):
+        pass  # (a tuple inside a list is written as a row constructor)
+    elif len(body) < 2 or body[0].text != "[" or body[-1].text != "]":
+        return "not an array literal"
+    inner = body[1:-1]
     items = []
     cur = []
+    depth = 0
     for t in inner:
-        if t.kind == "PUNCT" and t.text == ",":
+        if t.kind == "PUNCT" and t.text in "[(":
+            depth += 1
+        elif t.kind == "PUNCT" and t.text in "])":
+            depth -= 1
+        if depth == 0 and t.kind == "PUNCT" and t.text == ",":
             items.append(cur)
             cur = []
         else:
             cur.append(t)
     if cur:
         items.append(cur)
+    if not isinstance(v, (list, tuple)):
+        return "array literal for a value that is no list"
     if len(items) != len(v):
         return "array has %d items, value has %d" % (len(items), len(v))
     for it, x in zip(items, v):
-        if isinstance(x, (list, dict)):
+        if isinstance(x, (list, tuple)):
+            why = decode_array(it, x, d)
+        elif isinstance(x, dict):
             continue
-        why = expect_decode(kind_of(x), x, it, d, "")
+        else:
+            why = expect_decode(kind_of(x), x, it, d, "")
         if why:
             return why
     return None
